@@ -275,7 +275,9 @@ def XML(text):
     :return: the parsed XML event stream
     :raises ParseError: if the XML text is not well-formed
     """
-    return Stream(list(XMLParser(StringIO(text))))
+    # The text is already decoded: the parser hands it to Expat as UTF-8, so
+    # an encoding named in the XML declaration must not be applied again
+    return Stream(list(XMLParser(StringIO(text), encoding='utf-8')))
 
 
 class HTMLParser(html.HTMLParser, object):
